@@ -102,6 +102,25 @@ theorem minv_init {S : Store Var} (hw : WFStore S) : MInv S {} [] where
   sound := by intro τ _ p hp; simp at hp
   complete := by intro σ _; exact ⟨σ, fun _ _ => rfl, by intro j hj; simp at hj, by simp [cnfTrue]⟩
 
+/-- a manager that has registered variables (`newvar`) but posted nothing yet encodes the empty list -/
+theorem minv_registered {S : Store Var} (hw : WFStore S) (m0 : Mgr) (hc : m0.clauses = []) (hd : m0.codified = []) :
+    MInv S m0 [] where
+  wf := hw
+  cod := by intro j hj; simp [hd] at hj
+  coduser := by intro j hj; simp [hd] at hj
+  mentions := by intro c hc'; simp [hc] at hc'
+  sound := by intro τ _ p hp; simp at hp
+  complete := by intro σ _; exact ⟨σ, fun _ _ => rfl, by intro j hj; simp [hd] at hj, by simp [cnfTrue, hc]⟩
+
+/-- `newvar` only touches the variable table -/
+theorem minv_newvar {S : Store Var} {m : Mgr} {ps : List Post} (h : MInv S m ps) (v : Var) : MInv S (m.newvar v) ps where
+  wf := h.wf
+  cod := fun j hj => (h.cod j (by simpa using hj)).mono (by simp) (by simp)
+  coduser := by intro j hj; exact h.coduser j (by simpa using hj)
+  mentions := by simpa using h.mentions
+  sound := by simpa using h.sound
+  complete := by simpa using h.complete
+
 /-- other managers appending nodes to the shared store change nothing for this one -/
 theorem minv_grow {S S' : Store Var} {m : Mgr} {ps : List Post} (h : MInv S m ps) (hle : S.le S') (hw' : WFStore S') :
     MInv S' m ps where
@@ -412,7 +431,9 @@ theorem minv_post {S S' : Store Var} {m m' : Mgr} {ps : List Post} (h : MInv S m
 /-- One manager's view of a process history.  `Run m S ps m' S'`: starting from manager `m` and store `S`, the
     accepted constraints were exactly `ps` (in order) and the final state is `m'`, `S'`.  Between its own operations
     the shared store may grow arbitrarily through other managers (`grow`; they keep it well formed, see
-    `store_history_wf`); a refused constraint (`refused`) changes nothing. -/
+    `store_history_wf`); a refused constraint (`refused`) changes nothing; `newvar` registers a variable name at
+    any point (in the Python every literal handed to a posting method comes from `SATManager.newvar`; posting itself
+    registers nothing except the variables the encodings create). -/
 inductive Run : Mgr → Store Var → List Post → Mgr → Store Var → Prop
   | done (m : Mgr) (S : Store Var) : Run m S [] m S
   | grow {m : Mgr} {S S' : Store Var} {ps : List Post} {m' : Mgr} {S'' : Store Var} :
@@ -421,6 +442,8 @@ inductive Run : Mgr → Store Var → List Post → Mgr → Store Var → Prop
       m.post S p = .ok (m1, S1) → Run m1 S1 ps m' S' → Run m S (p :: ps) m' S'
   | refused {m : Mgr} {S : Store Var} {p : Post} {e : Err} {ps : List Post} {m' : Mgr} {S' : Store Var} :
       m.post S p = .error e → Run m S ps m' S' → Run m S ps m' S'
+  | newvar {m : Mgr} {S : Store Var} (v : Var) {ps : List Post} {m' : Mgr} {S' : Store Var} :
+      Run (m.newvar v) S ps m' S' → Run m S ps m' S'
 
 theorem minv_run {m : Mgr} {S : Store Var} {ps : List Post} {m' : Mgr} {S' : Store Var} (r : Run m S ps m' S') :
     ∀ qs, MInv S m qs → (∀ p ∈ ps, p.WF) → MInv S' m' (qs ++ ps) := by
@@ -432,5 +455,45 @@ theorem minv_run {m : Mgr} {S : Store Var} {ps : List Post} {m' : Mgr} {S' : Sto
     have := ih _ (minv_post h _ (hp _ (by simp)) hpost) (fun p' hp' => hp p' (by simp [hp']))
     simpa [List.append_assoc] using this
   | refused _ _ ih => intro qs h hp; exact ih qs h hp
+  | newvar v _ ih => intro qs h hp; exact ih qs (minv_newvar h v) hp
+
+/-- executable form of a history: register `vs`, then post `ps` in order, skipping what is refused; returns the final
+    manager, the final store and the accepted constraints -/
+def execPosts : Mgr → Store Var → List Post → Mgr × Store Var × List Post
+  | m, S, [] => (m, S, [])
+  | m, S, p :: r =>
+    match m.post S p with
+    | .ok (m1, S1) => let x := execPosts m1 S1 r; (x.1, x.2.1, p :: x.2.2)
+    | .error _ => execPosts m S r
+
+theorem execPosts_subset : ∀ (ps : List Post) (m : Mgr) (S : Store Var), ∀ p ∈ (execPosts m S ps).2.2, p ∈ ps
+  | [], _, _ => by simp [execPosts]
+  | q :: r, m, S => by
+    unfold execPosts
+    cases h : m.post S q with
+    | ok x =>
+      obtain ⟨m1, S1⟩ := x
+      intro p hp
+      simp only [List.mem_cons] at hp ⊢
+      rcases hp with e | hp
+      · exact Or.inl e
+      · exact Or.inr (execPosts_subset r m1 S1 p hp)
+    | error e => intro p hp; exact List.mem_cons_of_mem _ (execPosts_subset r m S p hp)
+
+def registerAll (m : Mgr) (vs : List Var) : Mgr := vs.foldl Mgr.newvar m
+
+theorem run_execPosts : ∀ (ps : List Post) (m : Mgr) (S : Store Var),
+    Run m S (execPosts m S ps).2.2 (execPosts m S ps).1 (execPosts m S ps).2.1
+  | [], m, S => Run.done m S
+  | p :: r, m, S => by
+    unfold execPosts
+    cases h : m.post S p with
+    | ok x => obtain ⟨m1, S1⟩ := x; exact Run.ok h (run_execPosts r m1 S1)
+    | error e => exact Run.refused h (run_execPosts r m S)
+
+theorem run_registerAll : ∀ (vs : List Var) {m : Mgr} {S : Store Var} {ps : List Post} {m' : Mgr} {S' : Store Var},
+    Run (registerAll m vs) S ps m' S' → Run m S ps m' S'
+  | [], _, _, _, _, _, r => r
+  | v :: vs, m, _, _, _, _, r => Run.newvar v (run_registerAll vs (m := m.newvar v) r)
 
 end FV.Sat
